@@ -122,6 +122,10 @@ def St.init : St :=
     stopReq := false, flushed := false, loopTid := none, trioTid := none, thrTids := [], execs := fun _ => none,
     failedQuiet := [], pids := [] }
 
+def Phase.isEnded : Phase → Bool
+  | .ended _ => true
+  | _ => false
+
 def Phase.restartable : Phase → Bool
   | .idle => true
   | .ended _ => true
@@ -243,7 +247,9 @@ def step (s : St) : Ev → Option St
   | .start p t =>
       -- payloads can still be started while the runtime is closing: an asyncio task or a trio
       -- task already handed to the nursery begins and is cancelled at its first checkpoint
-      if s.pay p = .submitted ∧ s.phase = .up ∧ s.tidOK (s.fl p) t then
+      -- … and a thread payload whose thread was already created may begin after the run call has
+      -- ended (threads are never awaited: they may outlive the run)
+      if s.pay p = .submitted ∧ (s.phase = .up ∨ (s.fl p = .thr ∧ s.phase.isEnded = true)) ∧ s.tidOK (s.fl p) t then
         some { (s.setFlavTid (s.fl p) t) with pay := upd s.pay p .running, starts := upd s.starts p (s.starts p + 1),
                                                tid := upd s.tid p (some t) }
       else none
